@@ -84,6 +84,13 @@ func runC20Flags(r *Report, rng *rand.Rand, thorough bool, bin, dir, specPath st
 		{"-exclude-operation-ids", "get_thing_by_id", func(c *codegen.Configuration) { c.OutputOptions.ExcludeOperationIDs = []string{"get_thing_by_id"} }},
 		{"-exclude-schemas", "Unused", func(c *codegen.Configuration) { c.OutputOptions.ExcludeSchemas = []string{"Unused"} }},
 		{"-response-type-suffix", "Resp", func(c *codegen.Configuration) { c.OutputOptions.ResponseTypeSuffix = "Resp" }},
+		// comma-separated values written with blanks after the commas (a quoted shell argument, a go:generate line)
+		{"-include-tags", "t1, t2", func(c *codegen.Configuration) { c.OutputOptions.IncludeTags = []string{"t1", "t2"} }},
+		{"-exclude-tags", " t2 ,nosuch", func(c *codegen.Configuration) { c.OutputOptions.ExcludeTags = []string{"t2", "nosuch"} }},
+		{"-include-operation-ids", "get_thing_by_id, putThingHttpUrl", func(c *codegen.Configuration) {
+			c.OutputOptions.IncludeOperationIDs = []string{"get_thing_by_id", "putThingHttpUrl"}
+		}},
+		{"-exclude-schemas", "Unused, Thing", func(c *codegen.Configuration) { c.OutputOptions.ExcludeSchemas = []string{"Unused", "Thing"} }},
 	} {
 		pkgOnly := filepath.Join(dir, "pkgonly.yaml")
 		must(os.WriteFile(pkgOnly, []byte("package: api\n"), 0o644))
@@ -106,6 +113,18 @@ func runC20Flags(r *Report, rng *rand.Rand, thorough bool, bin, dir, specPath st
 			if res.exit != 0 || maskHeader(res.stdout) != maskHeader(wantOut) {
 				r.Violate("command_line_filter_flag_differs_from_library", fmt.Sprintf("%s %s (configuration file naming only the package: %v): exit %d; %s", fc.flag, fc.val, withFile, res.exit, firstLineDiff(maskHeader(wantOut), maskHeader(res.stdout))), map[string]any{"args": args})
 			}
+		}
+	}
+	// the target list written with blanks after the commas
+	{
+		res := runCLI(bin, dir, "-package", "api", "-generate", "types, chi-server , client", specPath)
+		var want codegen.Configuration
+		want.PackageName = "api"
+		want.Generate = codegen.GenerateOptions{Models: true, ChiServer: true, Client: true}
+		wantOut, err := generate(c17SpecForCLI(specPath), want)
+		r.Count("generate-flag-with-blanks", true)
+		if err == nil && (res.exit != 0 || maskHeader(res.stdout) != maskHeader(wantOut)) {
+			r.Violate("generate_flag_with_blanks_differs_from_library", fmt.Sprintf("-generate \"types, chi-server , client\": exit %d, %s %s", res.exit, trunc(res.stderr, 200), firstLineDiff(maskHeader(wantOut), maskHeader(res.stdout))), nil)
 		}
 	}
 	// a templates directory with one override at the top level and one in a framework subdirectory, given by the flag
